@@ -233,6 +233,76 @@ def parseToks : List Grp → List Nat
   | Grp.range a b :: ts => List.range' a (b + 1 - a) ++ parseToks ts
   | Grp.single a :: ts => a :: parseToks ts
 
+/-! ### round h: one shank of `_prepare_files_NP24`, the steps of the AP window loop, of `NP2Reconstructor.process`,
+and the text of the channel-subset string -/
+
+/-- What `_prepare_files_NP24` sets up for shank number `sh`:
+
+    _shank_info["chns"] = np.r_[np.where(chn_info["shank"] == sh)[0], np.array(sync indices)]
+    probe_path = ...joinpath(label + chr(97 + int(sh)) + self.extra);  probe_path.mkdir(...)
+    _shank_info["ap_open_file"] = open(ap_file, "wb");  _shank_info["lf_open_file"] = open(lf_file, "wb")
+    shank_info[f"shank{sh}"] = _shank_info -/
+structure ShankPrep where
+  chns : List Nat          -- columns written for the shank, in file order
+  letter : Nat             -- code point of the folder suffix
+  key : Nat                -- `shank_info` key number
+  deriving DecidableEq, Repr
+
+def prepShank (smap : List Nat) (sh nc nsync : Nat) : ShankPrep :=
+  { chns := shankChans smap sh nc nsync, letter := 97 + sh, key := sh }
+
+/-- `_prepare_files_NP24`: one entry per shank number, in `np.unique` order. -/
+def prepAll (smap : List Nat) (nc nsync : Nat) : List ShankPrep :=
+  (shankIds smap).map (fun sh => prepShank smap sh nc nsync)
+
+/-- The observable steps of the AP half of `_process_NP24` (no early return, no post-check / compression / deletion). -/
+inductive ApStep where
+  | wg (ns w ov : Nat)                  -- WindowGenerator(self.nsamples, self.samples_window, self.samples_overlap)
+  | readAp (first last ncols : Nat)     -- chunk_ap = self.sr[first:last, : self.napch].T
+  | readSync (first last col0 : Nat)    -- chunk_ap_sync = self.sr[first:last, self.idxsyncch:].T
+  | keep (ratio : Nat)                  -- chunk_ap2save = self._ind2save(chunk_ap, chunk_ap_sync, wg, ratio=1, etype="ap")
+  | append                              -- self._split2shanks(chunk_ap2save, etype="ap")
+  | close                               -- self._closefiles(etype="ap")
+  | writeMeta                           -- self._writemetadata_ap()   (reads the size of the closed files)
+  deriving DecidableEq, Repr
+
+/-- One window of the loop: the AP columns `[0, napch)` and the sync columns `[isync, …)` of the SAME rows, `_ind2save`
+with ratio 1, then the append to every shank file. -/
+def apWindow (napch isync : Nat) (fl : Nat × Nat) : List ApStep :=
+  [.readAp fl.1 fl.2 napch, .readSync fl.1 fl.2 isync, .keep 1, .append]
+
+/-- The AP steps of `_process_NP24`: the windows are `firstlast ns w ov` — the list `keptAll` runs over, window number
+`iw` = position in it — then the files are closed, then the metadata are written. -/
+def apSteps (ns w ov napch isync : Nat) : List ApStep :=
+  .wg ns w ov :: ((firstlast ns w ov).flatMap (apWindow napch isync) ++ [.close, .writeMeta])
+
+/-- The rows each window's `keep` step retains, window by window (what `append` writes): `keptRows` at the window's number. -/
+def apAppended (w taper nwin : Nat) : Nat → List ApStep → List Nat
+  | _, [] => []
+  | iw, .readAp f l _ :: rest => keptRows w taper nwin iw (f, l) ++ apAppended w taper nwin (iw + 1) rest
+  | iw, _ :: rest => apAppended w taper nwin iw rest
+
+/-- `NP2Reconstructor.process` (folders found, NP2.4). -/
+inductive ReconStep where
+  | prepare | params | reconstruct | writeMeta | compress
+  deriving DecidableEq, Repr
+
+/-- `_prepare_files`, `get_params`, `_reconstruct`, `write_metadata` (after the file is complete: it reads its size),
+then the optional compression. -/
+def reconSteps (compress : Bool) : List ReconStep :=
+  [.prepare, .params, .reconstruct, .writeMeta] ++ (if compress then [.compress] else [])
+
+/-- `f"{a}:{b}"` / `f"{a}"` -/
+def renderGrp : Grp → String
+  | .range a b => toString a ++ ":" ++ toString b
+  | .single a => toString a
+
+/-- `",".join(chn_subset)` -/
+def renderToks : List Grp → String
+  | [] => ""
+  | [g] => renderGrp g
+  | g :: g' :: rest => renderGrp g ++ "," ++ renderToks (g' :: rest)
+
 /-! ### metadata as a key → value map (`_writemetadata_ap`, `NP2Reconstructor.write_metadata`) -/
 
 /-- A value as it is written to the `.meta` file.  `atom` values are never inspected by the code
